@@ -323,6 +323,15 @@ func valueOf(v reflect.Value) interface{} {
 	return v.Interface()
 }
 
+// rootValue returns the document to search: a nil pointer passed as the
+// document is null, as nil pointers inside a document already are.
+func rootValue(data interface{}) interface{} {
+	if data == nil {
+		return nil
+	}
+	return valueOf(reflect.ValueOf(data))
+}
+
 func (intr *treeInterpreter) fieldFromStruct(key string, value interface{}) (interface{}, error) {
 	rv := reflect.ValueOf(value)
 	first, n := utf8.DecodeRuneInString(key)
